@@ -134,8 +134,22 @@ def execute(row, seed, version=None):
                 run.settle()
                 holder['sc'].resume('p%d' % k)
         run.settle()
+        # finally the user writes a packet with force=True (kind RA, occurrence 99); IgnorePacket must not escape
+        if row.get('forced') and not holder['sc'].client_closed:
+            if st == 'play':
+                fp = sb.play.KeepAlivePacket(keep_alive_id=99)
+            else:
+                fp = sb.login.PluginResponsePacket(message_id=99, successful=False)
+            try:
+                c.write_packet(fp, force=True)
+            except BaseException as e:      # noqa
+                if type(e).__name__ == 'Poison':
+                    raise
+                holder['forced_exc'] = e
+            run.settle()
     run.go(scenario)
     sc = holder['sc']
+    run.forced_exc = holder.get('forced_exc')
     wire = []
     for p in sc.parsed[2:]:
         if p['t'] == 'keep_alive':
@@ -179,6 +193,8 @@ def run(chk):
             what, key = 'connection closed=%r, model %r' % (closed, row['closed']), 'dispatch:%s:closed' % row['st']
         elif run_.errors:
             what, key = 'unexpected error %r' % (run_.errors[-1],), 'dispatch:%s:error' % row['st']
+        elif getattr(run_, 'forced_exc', None) is not None:
+            what, key = 'write_packet(force=True) let %r escape' % (run_.forced_exc,), 'dispatch:%s:forced-write-raises' % row['st']
         if what:
             chk.violation(key, 'state %s, history %s (batch=%s), listeners EI=%s OI=%s EO=%s OO=%s at protocol %d: %s'
                           % (row['st'], row['hist'], row['batch'], json.dumps(row['EI']), json.dumps(row['OI']),
@@ -195,7 +211,7 @@ def run(chk):
         def lst(mx):
             return [{'f': rng.choice(FILT), 'ig': rng.random() < 0.25} for _ in range(rng.randint(0, mx))]
         kinds = ['A', 'A', 'U', 'B'] if st == 'play' else ['A', 'A', 'U']
-        row = {'EI': lst(3), 'OI': lst(3), 'EO': lst(3), 'OO': lst(3), 'st': st, 'batch': rng.random() < 0.5,
+        row = {'EI': lst(3), 'OI': lst(3), 'EO': lst(3), 'OO': lst(3), 'st': st, 'batch': rng.random() < 0.5, 'forced': True,
                'hist': [rng.choice(kinds) for _ in range(rng.randint(1, 6))] + ['D']}
         run_, log, wire, closed, version = execute(row, chk.seed * 31337 + j)
         chk.traces += 1
@@ -215,6 +231,8 @@ def run(chk):
     elif not r2.ok:
         raise core.MachineryError('Trace_Dispatch failed: %s' % r2.errors[:3])
     chk.sample({'large_configuration': {k: obs[0][k] for k in ('EI', 'OI', 'EO', 'OO', 'hist', 'st', 'batch')}, 'log': obs[0]['log']})
+    for o in obs:
+        pass
     chk.extra['behaviours_in_model'] = len(rows)
     chk.extra['behaviours_replayed'] = n
     chk.extra['large_configurations'] = len(obs)
